@@ -1400,6 +1400,8 @@ class Emitter:
             raise
         if it is not None and it.base in SCALARS.values() and t.base in SCALARS.values():
             return self.expr(inner)       # std::atomic<T> -> std::__atomic_base<T>: both are the plain T
+        if it is not None and it.base == t.base and it.base.startswith("xc_"):
+            return self.expr(inner)       # derived and base class are mapped to the same boundary type
         brec = self.find_record(lconst(strip_ns((n["type"].get("desugaredQualType") or n["type"]["qualType"]).rstrip("*& "))))
         if brec is not None and not any(c.get("kind") == "FieldDecl" for c in brec.get("inner", [])):
             # a base class without data members: reinterpret the pointer (the base sub-object is empty)
